@@ -169,6 +169,13 @@ def tb_clears_legit(v, base):
                     if val is not None and val[0] == "agg" and val[2] == "Option::Some":
                         continue
                     if b in storers and var in ("Error", "Terminate"):
+                        # the upstream this handler listens to has ended - but the clear must come before anything that can put the
+                        # NEXT upstream's talkback into the same cell (concat: `next()` subscribes the next member, which may greet
+                        # synchronously and store): a clear after that wipes a live talkback
+                        resub = [1 for j, x in ev_effects(p) if j < i and x.kind == "send" and x.variant == "Handshake"
+                                 and v.cls_of(x)[0] in ("UPSRC", "UPSRC_INNER")]
+                        if resub:
+                            ok = False
                         continue
                     told = [1 for j, x in ev_effects(p) if j < i and x.kind == "send" and x.variant in ("Terminate", "Error")
                             and recv_load(x) is not None and cell_key(recv_load(x)[1]) == cell_key(e.cell)]
@@ -2199,15 +2206,29 @@ def cas_claim_path(v, p, arm_uses_cas=False):
 
 def cas_validated_pre(p, base):
     """Is `base` an observation of a counter that a successful compare_exchange(base, base + 1) on this path confirmed as the
-    value it replaced?  Then base is the pre-value of a unit increment, exactly like the result of fetch_add(1)."""
-    for i, e in ev_effects(p):
-        if e.kind == "atomic" and e.op in ("compare_exchange", "compare_exchange_weak") and e.operand is not None:
-            exp = strip_refs(resolve_phis(p, i, e.operand))
-            new = resolve_phis(p, i, e.operand2) if e.get("operand2") is not None else None
-            if exp == base and new is not None and lin(new) == (base, 1):
-                ok = [1 for (j, a, _) in guards_before(p, len(p.events)) if a[0] == "discr" and a[1][0] == "rmw" and a[1][4] == e.site and a[2] == 0]
-                if ok:
-                    return e
+    value it replaced?  Then base is the pre-value of a unit increment, exactly like the result of fetch_add(1).  The outcome is
+    taken per occurrence: in a retry loop the same call site fails with one expected value and succeeds with another."""
+    evs = p.events
+    for i, ev in enumerate(evs):
+        if ev[0] != "eff":
+            continue
+        e = ev[1]
+        if not (e.kind == "atomic" and e.op in ("compare_exchange", "compare_exchange_weak") and e.operand is not None):
+            continue
+        exp = strip_refs(resolve_phis(p, i, e.operand))
+        new = resolve_phis(p, i, e.operand2) if e.get("operand2") is not None else None
+        if exp != base or new is None or lin(new) != (base, 1):
+            continue
+        for j in range(i + 1, len(evs)):
+            x = evs[j]
+            if x[0] == "eff" and x[1].kind == "atomic" and x[1].site == e.site:
+                break       # the next attempt at the same site: this occurrence's result was not examined in between
+            if x[0] == "br":
+                a = norm_pred(x[1], x[2])
+                if a[0] == "discr" and a[1][0] == "rmw" and a[1][4] == e.site:
+                    if a[2] == 0:
+                        return e
+                    break
     return None
 
 
@@ -2336,7 +2357,7 @@ def transfer_lemmas(ctx, v):
                     probs.append("accepted datum: sends %s" % got)
             else:
                 kinds.add("drop")
-                if got != [("UPTB", "Pull", "none")]:
+                if got != [("UPTB", "Pull", "none")] and not (not got and tb_none_decided(v, p)):
                     probs.append("rejected datum: sends %s" % got)
         ctx.ob("REL-xor", v.key(h, "Data", "REL-xor", "filter-transfer"), not probs and kinds == {"pass", "drop"},
                "UP.D forwards the datum iff condition(&d), otherwise re-requests exactly once" if not probs else "; ".join(sorted(set(probs))), v.loc(h))
@@ -4097,7 +4118,7 @@ def C17(ctx, model, tier, models):
             classes[cls] = classes.get(cls, 0) + 1
             armtxt = "".join(sorted(VSHORT.get(a, "-") for a in arms))
             key = "%s:%s:%s:%s" % (v.name, v.label(b), cls, armtxt)
-            if v.family == "share" and cls == "K-init" and not ok and v.op.roles.get(b) == "DOWN":
+            if v.family == "share" and cls == "K-init" and not ok and v.op.roles.get(b) == "DOWN" and "published on a path that has not stored the cell" in why:
                 # KF-6 is recorded per arm set and per guard: an expect that moves out of the last-detach branch, or a new one in
                 # another arm, is a different site and is reported
                 key = "share:DOWN.%s:K-init:later-sink-published-before-store%s" % (armtxt, ":on-last-detach" if when_last else "")
@@ -4238,6 +4259,9 @@ def C19(ctx, model, tier, models):
                     if a[0] == "cmp" and counter_term(a[1]) and counter_term(a[1])[0] == "cur" and ck and counter_term(a[1])[1] == ck:
                         if cas_validated_pre(p, a[1]) is not None:
                             continue    # the loaded value was confirmed by a successful compare_exchange(v, v + 1) on this path: that CAS decides
+                        cc = cas_claim_path(v, p, True)
+                        if cc is not None and cc[0] and not cc[1]:
+                            continue    # an earlier observation of a well-formed claim loop; a later compare_exchange admitted the delivery
                         bad.append("send of %s to the sink is decided by a plain load of the counter" % s[1])
         ctx.ob("ATM-no-cta", v.key(h, "Data", "ATM-no-cta", "counter"), not bad, "no send is decided by a separate load of the counter" if not bad else bad[0], v.loc(h))
         for e, b, arms in terminal_sink_sends(v):
